@@ -479,6 +479,28 @@ class Alg:
                 outer = tuple((a, p) for a, p in m if not self.has_EI(a))
                 acc = acc.add(Poly({mono_mul(outer, ((("vs", inner, n), 1),)): co}))
             return self.poly_term(acc)
+        if info.src is not None and info.src[0] == "rev" and not others:
+            # Horner evaluation from the last element down:  acc' = K*acc + g(elem)  over the reversed sequence
+            # ==>  sum_j K^j g(elem_j)  in the original order (acc0 = 0)
+            K, G, okh = Poly(), Poly(), True
+            for m, co in P.items():
+                d = dict(m)
+                if lv_self in d:
+                    if d[lv_self] != 1:
+                        okh = False
+                        break
+                    d.pop(lv_self)
+                    if any(self.has_EI(a) or a[0] == "lv" for a in d):
+                        okh = False
+                        break
+                    K[tuple(sorted(d.items(), key=lambda kv: key(kv[0])))] = co
+                else:
+                    if any(a[0] == "lv" for a in d):
+                        okh = False
+                        break
+                    G[m] = co
+            if okh and K and not self.poly(info.init[c]):
+                return self.poly_term(self.wsum_poly(("int", 1), self.poly_term(K), G, n))
         # generic canonical description (positional loop variables over the dependency closure)
         order = [c]
         seen = {c}
@@ -512,6 +534,30 @@ class Alg:
                 acc = acc.add(Poly({mono_mul(outer, ((atom, 1),)): co}))
         return acc
 
+    def shift_mask_digits(self, d, U, L):
+        """d == (v >> (b*I)) & (U-1) with U = 2^b, I the digit index, L digits, b*L <= 64: returns canonical v."""
+        if not isinstance(L, int) or U <= 1 or U & (U - 1):
+            return None
+        b = U.bit_length() - 1
+        if b * L > 64:
+            return None
+        if d[0] != "ibitand" or d[2] != ("int", U - 1):
+            return None
+        sh = d[1]
+        if sh[0] != "ishr":
+            return None
+        v, amount = sh[1], sh[2]
+        while amount[0] == "icast":
+            amount = amount[1]
+        ok = amount in (("imul", ("int", b), ("I",), "usize"), ("imul", ("I",), ("int", b), "usize"),
+                        ("imul", ("int", b), ("I",), "u32"), ("imul", ("I",), ("int", b), "u32"))
+        if not ok:
+            ca = self.canon(amount)
+            ok = ca == self.canon(("mul", ("int", b), ("I",)))
+        if not ok or self.has_EI(v):
+            return None
+        return self.canon(v)
+
     def decomposition_lemma(self, atom):
         """Arithmetic lemma (trusted, recorded in `lemmas_used`):  if d_j = v_j mod U, v_{j+1} = v_j div U for
         j < L starting from v_0 = v with 0 <= v < U^L, then  sum_j U^j * enc(d_j) = enc(v)  (enc is a ring map).
@@ -522,6 +568,12 @@ class Alg:
         U, body, L = k[1], vec[1], vec[2]
         if body[0] != "enc":
             return None
+        sm = self.shift_mask_digits(body[1], U, L)
+        if sm is not None:
+            self.__dict__.setdefault("lemmas_used", []).append(
+                "digit decomposition (shift/mask form): sum_j %d^j enc((v >> %d*j) & %d) = enc(v) for 0 <= v < %d^%d" % (U, U.bit_length() - 1, U - 1, U, L))
+            a = ("enc", sm)
+            return self.facts[a] if a in self.facts else Poly.atom(a)
         if body[1][0] == "at" and body[1][2] == ("I",):
             f = body[1][1]
         elif body[1][0] == "E":
